@@ -31,8 +31,15 @@ def run(prop, tier):
     v.extra["bounded_obligations"] = dict(generated=nb, discharged=sum(r.get("proved", 0) for r in bounded),
                                           note="_simulate_wait for n in %s concrete cycles: bounded, not counted in obligations/discharged" % (list(ns),))
     v.bounded = [dict(part="PCE500Emulator._simulate_wait", bound=f"n in {list(ns)} cycles, periods/targets/cycle base unbounded symbolic integers",
-                      note="bounded stand-in"),
-                 dict(part="Rust TimerContext::tick_timers", bound="not run", note="not decided (no Rust verifier)")]
+                      note="bounded stand-in")]
+    from props import rust_standin as RS
+    vec = dict(timer=RS.timer_vectors(tier))
+    res = RS.run(vec, ["timer"])
+    v.absorb(RS.reports(res, vec, ["timer"]), known, expect_obligations=False)
+    v.obligations, v.discharged = before
+    v.bounded.append(RS.summarize(res, "timer", "TimerContext::tick_timers on the compiled crate: all period pairs 0..%d x 0..%d (0 = off)%s, enabled and disabled; tick every cycle 0..39, "
+                                  "monotone sequences with gaps up to 2^21, reset at a non-zero base, restored targets that are already due, ISR pre-set to 0x00/0x80/0x03/0x54; "
+                                  "expected fired pair, next targets and ISR byte from the closed form of the advance() contract" % ((6, 6, "") if tier == "quick" else (12, 12, " plus 4 large pairs"))))
     v.assumptions = [
         "mathematical (unbounded) integers for periods, targets and cycle counts: no machine-width assumption",
         "loop invariant of advance(): period > 0, target = target0 + k*period (ghost k >= 0), target - period <= cycle; variant cycle - target + 1",
